@@ -6,6 +6,7 @@ import (
 	"go/token"
 	"os"
 	"path/filepath"
+	"regexp"
 	"sort"
 	"strings"
 	"time"
@@ -33,10 +34,10 @@ type Oblig struct {
 }
 
 type KnownFinding struct {
-	Property       string `json:"property"`
-	Rule           string `json:"rule"`
-	InstancePrefix string `json:"instance_prefix"`
-	What           string `json:"what"`
+	Property      string `json:"property"`
+	Rule          string `json:"rule"`
+	InstanceRegex string `json:"instance_regex"` // anchored regular expression over the obligation's construct key
+	What          string `json:"what"`
 }
 
 type KnownFile struct {
@@ -220,7 +221,7 @@ func (c *Checker) finish() int {
 		matched := false
 		if o.Verdict == Refuted {
 			for i, k := range kf.Known {
-				if k.Property == c.Prop && k.Rule == o.Rule && strings.HasPrefix(o.Instance, k.InstancePrefix) {
+				if k.Property == c.Prop && k.Rule == o.Rule && k.InstanceRegex != "" && regexp.MustCompile("^(?:"+k.InstanceRegex+")$").MatchString(o.Instance) {
 					matched = true
 					knownHit[i] = true
 				}
